@@ -158,6 +158,12 @@ pub fn so3_quats(thorough: bool) -> Vec<[f64; 4]> {
         [std::f64::consts::FRAC_1_SQRT_2, std::f64::consts::FRAC_1_SQRT_2, 0.0, 0.0],
         neg([std::f64::consts::FRAC_1_SQRT_2, std::f64::consts::FRAC_1_SQRT_2, 0.0, 0.0]),
     ];
+    // a ladder of small rotations (2.6e-3 ... 8.7e-6 rad) next to the identity and next to Rx90: pairs that
+    // are "almost the same rotation" at every order of magnitude, not only at the 0.9995 switch
+    for deg in [0.15, 0.05, 0.005, 0.0005] {
+        v.push(quat_axis_angle(z, deg));
+        v.push(neg(quat_mul(&quat_axis_angle(x, 90.0), &quat_axis_angle(d, deg))));
+    }
     if thorough {
         for a in [1.0, 10.0, 30.0, 60.0, 100.0, 150.0, 179.0, 179.999999] {
             v.push(quat_axis_angle(x, a));
